@@ -8,6 +8,10 @@
 (*                           fails on a closed listener), Register / Reject *)
 (*                           (registerConnection under connMutex)           *)
 (*   handleConnectionLoop  : Serve (one request answered, activity stamped),*)
+(*                           or, for requests that take time, ServeBegin    *)
+(*                           (call read, activity stamped, handed to the    *)
+(*                           worker pool) and ServeEnd (answered, activity  *)
+(*                           stamped),                                      *)
 (*                           ConnNotice (ctx cancelled / socket closed /    *)
 (*                           peer gone: loop returns, conn.Close),          *)
 (*                           ConnExit (deferred unregisterConnection,       *)
@@ -18,8 +22,9 @@
 (*   Stop                  : StopCancel, StopCloseListener, StopCollect,    *)
 (*                           StopCloseOne, StopWait, StopReturn             *)
 (*   AbsfsNFS.Close/Unexport: NfsBegin (stops the server Export() created), *)
-(*                           NfsRelease (ReleaseAll), NfsClear (caches),    *)
-(*                           NfsReturn                                      *)
+(*                           NfsPoolStop (Close only: workerPool.Stop waits *)
+(*                           for the requests it is executing), NfsRelease  *)
+(*                           (ReleaseAll), NfsClear (caches)                *)
 (* Time is abstract: Tick ages every registered connection; a connection is *)
 (* reapable when its age exceeds IdleT.                                     *)
 (***************************************************************************)
@@ -31,7 +36,8 @@ CONSTANTS Conns,      \* connection ids
           Stops,      \* ids of Server.Stop calls
           Nfs,        \* ids of AbsfsNFS.Close / Unexport calls
           Exported,   \* TRUE: the server was created by Export() (Close / Unexport stop it)
-          Mutant      \* "none" | "DoubleUnreg" | "NoLimit" | "StopNoWait" | "CloseNoRelease"
+          Slow,       \* connections whose requests take time (ServeBegin / ServeEnd instead of the atomic Serve)
+          Mutant      \* "none" | "DoubleUnreg" | "NoLimit" | "StopNoWait" | "CloseNoRelease" | "ReleaseBeforePoolStop" | "NoRefreshAtRead"
 
 VARIABLES lst,      \* listener: "none" | "open" | "closed"
           ctxDone,  \* server context cancelled
@@ -41,9 +47,10 @@ VARIABLES lst,      \* listener: "none" | "open" | "closed"
           reap,     \* connections collected as idle by the current cleanup pass
           active,   \* activeConns
           count,    \* connCount
-          conn,     \* conn[c] = [ph, sock, peer, age, gor]
+          conn,     \* conn[c] = [ph, sock, peer, age, gor, busy, dur, reaped]   busy: a request of c is executing; dur: for how
+                    \* many ticks; reaped: closed by the cleanup pass
           stop,     \* stop[k] = [ph, snap]
-          nfs,      \* nfs[j] = [ph]
+          nfs,      \* nfs[j] = [ph, api]
           exportSrv,\* AbsfsNFS.exportServer # nil
           handles, caches,   \* some file handle is allocated / some cache entry exists
           regN, unregN       \* ghost: how often each connection was counted / uncounted
@@ -52,9 +59,9 @@ vars == <<lst, ctxDone, acc, accHas, idleG, reap, active, count, conn, stop, nfs
 
 Init == /\ lst = "none" /\ ctxDone = FALSE /\ acc = "none" /\ accHas = {} /\ idleG = FALSE /\ reap = {}
         /\ active = {} /\ count = 0
-        /\ conn = [c \in Conns |-> [ph |-> "none", sock |-> "none", peer |-> "open", age |-> 0, gor |-> FALSE]]
+        /\ conn = [c \in Conns |-> [ph |-> "none", sock |-> "none", peer |-> "open", age |-> 0, gor |-> FALSE, busy |-> FALSE, dur |-> 0, reaped |-> FALSE]]
         /\ stop = [k \in Stops |-> [ph |-> "idle", snap |-> {}]]
-        /\ nfs = [j \in Nfs |-> [ph |-> "idle"]]
+        /\ nfs = [j \in Nfs |-> [ph |-> "idle", api |-> "close"]]
         /\ exportSrv = Exported
         /\ handles = FALSE /\ caches = FALSE
         /\ regN = [c \in Conns |-> 0] /\ unregN = [c \in Conns |-> 0]
@@ -127,17 +134,39 @@ UnregEffect(c) ==
 
 \* ---- handleConnectionLoop
 \* one request read, answered, activity stamped (updateConnectionActivity); it may allocate handles / fill caches
-Serve(c) ==
-  /\ conn[c].ph = "serving" /\ conn[c].gor /\ conn[c].sock = "open" /\ conn[c].peer = "open"
+\* (environment: once Close / Unexport has been called the clients send nothing new; what is executing completes)
+ClientsMaySend == \A j \in Nfs : nfs[j].ph = "idle"
+CanRead(c) == conn[c].ph = "serving" /\ conn[c].gor /\ conn[c].sock = "open" /\ conn[c].peer = "open" /\ ~conn[c].busy
+
+ServeFast(c) ==
+  /\ CanRead(c) /\ ClientsMaySend
   /\ conn' = [conn EXCEPT ![c].age = 0]
   /\ \/ handles' = TRUE /\ caches' = TRUE      \* LOOKUP / READDIR / ...: a handle is allocated, attributes are cached
      \/ UNCHANGED <<handles, caches>>           \* NULL
   /\ UNCHANGED <<lst, ctxDone, acc, accHas, idleG, reap, active, count, stop, nfs, exportSrv, regN, unregN>>
 
+\* a call is read: activity stamped (updateConnectionActivity), the request is handed to the worker pool and executes
+\* (mutant NoRefreshAtRead: the stamp at this point is missing)
+ServeBeginAny(c) ==
+  /\ CanRead(c) /\ ClientsMaySend
+  /\ conn' = [conn EXCEPT ![c].busy = TRUE, ![c].dur = 0, ![c].age = IF Mutant = "NoRefreshAtRead" THEN @ ELSE 0]
+  /\ UNCHANGED <<lst, ctxDone, acc, accHas, idleG, reap, active, count, stop, nfs, exportSrv, handles, caches, regN, unregN>>
+
+Serve(c) == c \notin Slow /\ ServeFast(c)
+ServeBegin(c) == c \in Slow /\ ServeBeginAny(c)
+
+\* the request has executed (it may allocate a handle / fill a cache), the reply is written (possibly to a socket that
+\* has been closed meanwhile), activity stamped
+ServeEnd(c) ==
+  /\ conn[c].busy
+  /\ conn' = [conn EXCEPT ![c].busy = FALSE, ![c].age = 0]
+  /\ handles' = TRUE /\ caches' = TRUE
+  /\ UNCHANGED <<lst, ctxDone, acc, accHas, idleG, reap, active, count, stop, nfs, exportSrv, regN, unregN>>
+
 \* the loop returns: context cancelled (seen at the loop top), read failed on a closed socket, or the peer is gone;
-\* deferred conn.Close()
+\* deferred conn.Close().  While a request executes the loop is inside HandleCall and notices nothing.
 ConnNotice(c) ==
-  /\ conn[c].ph = "serving" /\ conn[c].gor
+  /\ conn[c].ph = "serving" /\ conn[c].gor /\ ~conn[c].busy
   /\ ctxDone \/ conn[c].sock = "closed" \/ conn[c].peer = "closed"
   /\ conn' = [conn EXCEPT ![c].ph = "exiting", ![c].sock = "closed"]
   /\ UNCHANGED <<lst, ctxDone, acc, accHas, idleG, reap, active, count, stop, nfs, exportSrv, handles, caches, regN, unregN>>
@@ -150,9 +179,12 @@ ConnExit(c) ==
   /\ UNCHANGED <<lst, ctxDone, acc, accHas, idleG, reap, stop, nfs, exportSrv, handles, caches, regN>>
 
 \* ---- time and idle cleanup
+\* (environment: no call takes longer than IdleTimeout to be answered - time does not pass beyond that while one executes)
 Tick ==
   /\ \E c \in active : conn[c].age <= IdleT
-  /\ conn' = [c \in Conns |-> IF c \in active /\ conn[c].age <= IdleT THEN [conn[c] EXCEPT !.age = @ + 1] ELSE conn[c]]
+  /\ \A c \in Conns : conn[c].busy => conn[c].dur < IdleT
+  /\ conn' = [c \in Conns |-> [conn[c] EXCEPT !.age = IF c \in active /\ @ <= IdleT THEN @ + 1 ELSE @,
+                                                 !.dur = IF conn[c].busy THEN @ + 1 ELSE @]]
   /\ UNCHANGED <<lst, ctxDone, acc, accHas, idleG, reap, active, count, stop, nfs, exportSrv, handles, caches, regN, unregN>>
 
 Idle(c) == c \in active /\ conn[c].age > IdleT
@@ -167,7 +199,7 @@ ReapPick ==
 ReapClose(c) ==
   /\ c \in reap
   /\ reap' = reap \ {c}
-  /\ conn' = [conn EXCEPT ![c].sock = "closed"]
+  /\ conn' = [conn EXCEPT ![c].sock = "closed", ![c].reaped = TRUE]
   /\ UnregEffect(c)
   /\ UNCHANGED <<lst, ctxDone, acc, accHas, idleG, stop, nfs, exportSrv, handles, caches, regN>>
 
@@ -220,10 +252,14 @@ StopReturn(k) ==
 \* ---- AbsfsNFS.Close / Unexport: stop the export server (if Export() made one), release handles, clear caches
 \* (on a handler whose server the application manages itself the call is made once that server is stopped or was
 \* never started; otherwise requests still being served may allocate handles again, which C17 does not exclude)
-NfsBegin(j) ==
+\* Close may also be called while the application's own server still executes requests in the worker pool (it waits
+\* for them); Unexport has no such wait and is called when nothing executes
+Busy == \E c \in Conns : conn[c].busy
+NfsBegin(j, api) ==
   /\ nfs[j].ph = "idle"
-  /\ exportSrv \/ lst = "none" \/ \E k \in Stops : stop[k].ph = "returned"
-  /\ nfs' = [nfs EXCEPT ![j].ph = IF exportSrv THEN "stopping" ELSE "stopped"]
+  /\ exportSrv \/ lst = "none" \/ (\E k \in Stops : stop[k].ph = "returned") \/ api = "close"
+  /\ (api = "unexport" /\ ~exportSrv) => ~Busy
+  /\ nfs' = [nfs EXCEPT ![j].ph = IF exportSrv THEN "stopping" ELSE "stopped", ![j].api = api]
   /\ UNCHANGED <<lst, ctxDone, acc, accHas, idleG, reap, active, count, conn, stop, exportSrv, handles, caches, regN, unregN>>
 
 \* exportServer.Stop() returned (some Stop call has completed); exportServer = nil
@@ -234,8 +270,16 @@ NfsStopped(j) ==
   /\ nfs' = [nfs EXCEPT ![j].ph = "stopped"]
   /\ UNCHANGED <<lst, ctxDone, acc, accHas, idleG, reap, active, count, conn, stop, handles, caches, regN, unregN>>
 
+\* Close: workerPool.Stop() returns once the requests the pool is executing have finished.
+\* Mutant ReleaseBeforePoolStop: handles and caches are released first, the pool is stopped afterwards.
+PoolFirst == Mutant # "ReleaseBeforePoolStop"
+NfsPoolStop(j) ==
+  /\ nfs[j].ph = (IF PoolFirst THEN "stopped" ELSE "cleared") /\ ~Busy
+  /\ nfs' = [nfs EXCEPT ![j].ph = IF PoolFirst THEN "pooled" ELSE "returned"]
+  /\ UNCHANGED <<lst, ctxDone, acc, accHas, idleG, reap, active, count, conn, stop, exportSrv, handles, caches, regN, unregN>>
+
 NfsRelease(j) ==
-  /\ nfs[j].ph = "stopped"
+  /\ nfs[j].ph = (IF nfs[j].api = "close" /\ PoolFirst THEN "pooled" ELSE "stopped")
   /\ handles' = IF Mutant = "CloseNoRelease" THEN handles ELSE FALSE
   /\ nfs' = [nfs EXCEPT ![j].ph = "released"]
   /\ UNCHANGED <<lst, ctxDone, acc, accHas, idleG, reap, active, count, conn, stop, exportSrv, caches, regN, unregN>>
@@ -243,24 +287,26 @@ NfsRelease(j) ==
 NfsClear(j) ==
   /\ nfs[j].ph = "released"
   /\ caches' = FALSE
-  /\ nfs' = [nfs EXCEPT ![j].ph = "returned"]
+  /\ nfs' = [nfs EXCEPT ![j].ph = IF nfs[j].api = "close" /\ ~PoolFirst THEN "cleared" ELSE "returned"]
   /\ UNCHANGED <<lst, ctxDone, acc, accHas, idleG, reap, active, count, conn, stop, exportSrv, handles, regN, unregN>>
 
 -----------------------------------------------------------------------------
 EnvNext == \/ Listen \/ Tick
-           \/ \E c \in Conns : Dial(c) \/ PeerClose(c) \/ Serve(c)
+           \/ \E c \in Conns : Dial(c) \/ PeerClose(c) \/ Serve(c) \/ ServeBegin(c)
            \/ \E k \in Stops : StopCancel(k)
-           \/ \E j \in Nfs : NfsBegin(j)
+           \/ \E j \in Nfs : NfsBegin(j, "close") \/ NfsBegin(j, "unexport")
 ServerNext == \/ AccCheck \/ AccErr \/ ReapPick \/ IdleExit
-              \/ \E c \in Conns : AccTake(c) \/ Register(c) \/ Reject(c) \/ ConnNotice(c) \/ ConnExit(c) \/ ReapClose(c)
+              \/ \E c \in Conns : AccTake(c) \/ Register(c) \/ Reject(c) \/ ServeEnd(c) \/ ConnNotice(c) \/ ConnExit(c) \/ ReapClose(c)
               \/ \E k \in Stops : StopCloseListener(k) \/ StopCollect(k) \/ StopWait(k) \/ StopReturn(k)
                                   \/ \E c \in Conns : StopCloseOne(k, c)
-              \/ \E j \in Nfs : NfsStopped(j) \/ NfsRelease(j) \/ NfsClear(j)
+              \/ \E j \in Nfs : NfsStopped(j) \/ NfsPoolStop(j) \/ NfsRelease(j) \/ NfsClear(j)
 Next == EnvNext \/ ServerNext
 Spec == Init /\ [][Next]_vars
+\* (strong fairness for ConnNotice: the loop looks at the context and at its socket between any two requests, so a
+\* connection that keeps being sent requests still notices)
 FairSpec == /\ Spec
             /\ WF_vars(AccCheck) /\ WF_vars(AccErr) /\ WF_vars(ReapPick) /\ WF_vars(IdleExit)
-            /\ \A c \in Conns : WF_vars(Register(c) \/ Reject(c)) /\ WF_vars(ConnNotice(c)) /\ WF_vars(ConnExit(c)) /\ WF_vars(ReapClose(c))
+            /\ \A c \in Conns : WF_vars(Register(c) \/ Reject(c)) /\ WF_vars(ServeEnd(c)) /\ SF_vars(ConnNotice(c)) /\ WF_vars(ConnExit(c)) /\ WF_vars(ReapClose(c))
             /\ \A k \in Stops : WF_vars(StopCloseListener(k) \/ StopCollect(k) \/ StopWait(k) \/ StopReturn(k) \/ \E c \in Conns : StopCloseOne(k, c))
 
 -----------------------------------------------------------------------------
@@ -275,9 +321,17 @@ CountedOnce  == \A c \in Conns : regN[c] <= 1 /\ unregN[c] <= regN[c]
 GoneUncounted == \A c \in Conns : conn[c].ph = "gone" => c \notin active
 
 \* simultaneously served connections never exceed MaxConnections
-Served == {c \in Conns : conn[c].ph = "serving" /\ conn[c].gor /\ conn[c].sock = "open"}
-Bounded == Max > 0 => (count <= Max /\ Cardinality(Served) <= Max)
-ServedAreCounted == Served \subseteq active
+\* (a connection whose request is executing is being served, whatever has happened to its socket; while the server
+\* shuts down connections are being torn down and only the count is bounded)
+\* (a connection the cleanup pass has found idle for longer than IdleTimeout is on its way out, even if a call
+\* reaches it in that instant)
+Served == {c \in Conns : conn[c].ph = "serving" /\ conn[c].gor /\ c \notin reap /\ ~conn[c].reaped
+                          /\ (conn[c].sock = "open" \/ conn[c].busy)}
+Bounded == Max > 0 => (count <= Max /\ (~ctxDone => Cardinality(Served) <= Max))
+ServedAreCounted == ~ctxDone => Served \subseteq active
+
+\* a connection with a request executing is not idle: the cleanup pass never collects it
+NoReapMidCall == [][\A c \in Conns : (c \in reap' /\ c \notin reap) => ~conn[c].busy]_vars
 
 \* after Server.Stop returns no connection is served and no accept or connection goroutine remains
 Stopped == \E k \in Stops : stop[k].ph = "returned"
